@@ -640,4 +640,191 @@ theorem toTriples_eq (o : Opts) (d : DMRS) (hx : ExpressibleP d) :
   refine congrArg Except.ok ?_
   exact congr (congrArg _ hA) hB
 
+/-! ### the kept nodes -/
+
+theorem mem_pOrder {d : DMRS} {n : Node} : n ∈ pOrder d ↔ n ∈ d.nodes ∧ n.id ∈ mainComponent d := by
+  unfold pOrder
+  simp only [List.mem_filter, List.mem_append, decide_eq_true_eq]
+  constructor
+  · rintro ⟨h | h, hc⟩
+    · exact ⟨h.1, hc⟩
+    · exact ⟨h.1, hc⟩
+  · rintro ⟨h, hc⟩
+    by_cases ht : d.top = some n.id
+    · exact ⟨Or.inl ⟨h, ht⟩, hc⟩
+    · exact ⟨Or.inr ⟨h, ht⟩, hc⟩
+
+theorem mem_pOrder_ids {d : DMRS} {i : Int} :
+    i ∈ (pOrder d).map (·.id) ↔ i ∈ d.nodes.map (·.id) ∧ i ∈ mainComponent d := by
+  constructor
+  · intro h
+    obtain ⟨n, hn, rfl⟩ := List.mem_map.mp h
+    exact ⟨List.mem_map_of_mem (mem_pOrder.mp hn).1, (mem_pOrder.mp hn).2⟩
+  · rintro ⟨h, hc⟩
+    obtain ⟨n, hn, rfl⟩ := List.mem_map.mp h
+    exact List.mem_map_of_mem (mem_pOrder.mpr ⟨hn, hc⟩)
+
+theorem pOrder_ids_nodup (d : DMRS) (h : (d.nodes.map (·.id)).Nodup) : ((pOrder d).map (·.id)).Nodup := by
+  have hperm : (d.nodes.filter (fun n => d.top = some n.id) ++ d.nodes.filter (fun n => d.top ≠ some n.id)).Perm
+      d.nodes := by
+    have := List.filter_append_perm (fun n => decide (d.top = some n.id)) d.nodes
+    simpa using this
+  have h1 := (hperm.map (·.id)).nodup_iff.mpr h
+  unfold pOrder
+  exact List.Nodup.sublist (List.Sublist.map _ List.filter_sublist) h1
+
+theorem nodup_map_of_injOn {α β : Type} (f : α → β) (l : List α) (hl : l.Nodup)
+    (hf : ∀ a ∈ l, ∀ b ∈ l, f a = f b → a = b) : (l.map f).Nodup := by
+  induction l with
+  | nil => simp
+  | cons a l ih =>
+    simp only [List.nodup_cons] at hl
+    simp only [List.map_cons, List.nodup_cons]
+    refine ⟨?_, ih hl.2 (fun x hx y hy => hf x (by simp [hx]) y (by simp [hy]))⟩
+    intro hm
+    obtain ⟨b, hb, he⟩ := List.mem_map.mp hm
+    have := hf a (by simp) b (by simp [hb]) he.symm
+    exact hl.1 (this ▸ hb)
+
+theorem pOrder_vars_nodup (d : DMRS) (hx : ExpressibleP d) :
+    ((pOrder d).map (fun n => vname d n.id)).Nodup := by
+  have h := nodup_map_of_injOn (vname d) ((pOrder d).map (·.id)) (pOrder_ids_nodup d hx.ids)
+    (fun a ha b hb => vname_inj d hx a b (mem_pOrder_ids.mp ha).1 (mem_pOrder_ids.mp hb).1)
+  simpa [List.map_map, Function.comp_def] using h
+
+/-- the `Node` that `from_triples` builds out of the `i`-th record -/
+def nodeOfP (p : Nat × PNode) : Node :=
+  { id := FIRST_NODE_ID + (p.1 : Int), pred := p.2.pred.getD [], type := p.2.type, props := p.2.props,
+    carg := p.2.carg, lnk := p.2.lnk }
+
+theorem nodes_view (o : Opts) (d : DMRS) (hnd : ((pOrder d).map (·.id)).Nodup) (pre suf : List Node)
+    (h : pOrder d = pre ++ suf) :
+    (enumFrom1 pre.length (suf.map (fun n => pnodeOf o (vname d n.id) n))).map nodeOfP =
+      suf.map (viewNodeP o d) := by
+  induction suf generalizing pre with
+  | nil => rfl
+  | cons n suf ih =>
+    have hget : (pOrder d)[pre.length]? = some n := by rw [h]; simp
+    obtain ⟨hi, hg⟩ := List.getElem?_eq_some_iff.mp hget
+    have hid := renId_getElem d hnd pre.length hi
+    rw [hg] at hid
+    have ih' := ih (pre ++ [n]) (by rw [h]; simp)
+    simp only [List.length_append, List.length_cons, List.length_nil] at ih'
+    simp only [List.map_cons, enumFrom1, ih']
+    congr 1
+    simp [nodeOfP, viewNodeP, pnodeOf, hid]
+    rfl
+
+theorem indexOfVar_pn (o : Opts) (d : DMRS) (hx : ExpressibleP d) (L : List Node)
+    (hL : ∀ n ∈ L, n.id ∈ d.nodes.map (·.id)) (a : Int) (ha : a ∈ d.nodes.map (·.id))
+    (hm : a ∈ L.map (·.id)) :
+    indexOfVar (vname d a) (L.map (fun n => pnodeOf o (vname d n.id) n)) = some ((L.map (·.id)).idxOf a) := by
+  induction L with
+  | nil => simp at hm
+  | cons n L ih =>
+    by_cases hna : n.id = a
+    · simp [indexOfVar, pnodeOf, hna]
+    · have hv : ¬ vname d n.id = vname d a := fun e => hna (vname_inj d hx _ _ (hL n (by simp)) ha e)
+      have hm' : a ∈ L.map (·.id) := by
+        simp only [List.map_cons, List.mem_cons] at hm
+        rcases hm with hm | hm
+        · exact absurd hm.symm hna
+        · exact hm
+      have ih' := ih (fun x hx' => hL x (by simp [hx'])) hm'
+      simp only [List.map_cons, indexOfVar, pnodeOf, hv, if_false]
+      simp only [pnodeOf] at ih'
+      rw [ih']
+      have hb : (n.id == a) = false := by simpa using hna
+      simp [List.idxOf_cons, hb]
+
+theorem nid_vname (o : Opts) (d : DMRS) (hx : ExpressibleP d) (a : Int) (ha : a ∈ (pOrder d).map (·.id)) :
+    (indexOfVar (vname d a) ((pOrder d).map (fun n => pnodeOf o (vname d n.id) n))).map
+      (fun i => FIRST_NODE_ID + (i : Int)) = some (renId d a) := by
+  rw [indexOfVar_pn o d hx (pOrder d) (fun n hn => List.mem_map_of_mem (mem_pOrder.mp hn).1) a
+    (mem_pOrder_ids.mp ha).1 ha]
+  rfl
+
+/-! ### the round trip -/
+
+theorem fold_all (o : Opts) (d : DMRS) (hx : ExpressibleP d) :
+    foldTriples {} ((pOrder d).flatMap (fun n => nodeTriples o (vname d n.id) n) ++
+        (keptLinks d).map (linkTriple (vname d))) =
+      .ok { top := ((pOrder d).map (fun n => vname d n.id)).head?,
+            nodes := (pOrder d).map (fun n => pnodeOf o (vname d n.id) n),
+            edges := (keptLinks d).map (fun l => (vname d l.start, vname d l.stop, roleOf l, postOf l)) } := by
+  have h1 := fold_nodes o (vname d) (pOrder d) (fun n hn => hx.nodes n (mem_pOrder.mp hn).1) none [] []
+    (by simpa using pOrder_vars_nodup d hx) ((keptLinks d).map (linkTriple (vname d)))
+  have h2 := fold_links (vname d) (keptLinks d) (fun l hl => hx.links l (List.mem_filter.mp hl).1)
+    (((pOrder d).map (fun n => vname d n.id)).head?)
+    ((pOrder d).map (fun n => pnodeOf o (vname d n.id) n)) []
+    (by
+      intro l hl
+      obtain ⟨hl', hc⟩ := List.mem_filter.mp hl
+      simp only [Bool.and_eq_true, decide_eq_true_eq] at hc
+      have hm : l.start ∈ (pOrder d).map (·.id) := mem_pOrder_ids.mpr ⟨(hx.ends l hl').1, hc.1⟩
+      obtain ⟨n, hn, hid⟩ := List.mem_map.mp hm
+      rw [List.any_eq_true]
+      exact ⟨pnodeOf o (vname d n.id) n, List.mem_map_of_mem hn, by simp [pnodeOf, hid]⟩)
+  simp only [List.nil_append] at h1 h2
+  exact h1.trans h2
+
+theorem fromTriples_toTriples (o : Opts) (d : DMRS) (hx : ExpressibleP d) :
+    ∃ ts, toTriples o d = .ok ts ∧ fromTriples ts = .ok (viewP o d) := by
+  refine ⟨_, toTriples_eq o d hx, ?_⟩
+  obtain ⟨t, ht, htm⟩ := hx.top
+  have htP : t ∈ (pOrder d).map (·.id) := mem_pOrder_ids.mpr ⟨htm, top_mem_mainComponent d t ht⟩
+  have hnd := pOrder_ids_nodup d hx.ids
+  have hnodes := nodes_view o d hnd [] (pOrder d) rfl
+  have hany : ((pOrder d).map (fun n => pnodeOf o (vname d n.id) n)).any (fun n => n.pred.isNone) = false := by
+    rw [List.any_eq_false]
+    intro pn hpn
+    obtain ⟨n, _, rfl⟩ := List.mem_map.mp hpn
+    simp [pnodeOf]
+  obtain ⟨n0, P', hP⟩ : ∃ n0 P', pOrder d = n0 :: P' := by
+    cases h : pOrder d with
+    | nil => rw [h] at htP; simp at htP
+    | cons a b => exact ⟨a, b, rfl⟩
+  have hn0 : renId d n0.id = FIRST_NODE_ID := by
+    unfold renId
+    rw [hP]
+    simp
+  have hn0m : n0.id ∈ (pOrder d).map (·.id) := by rw [hP]; simp
+  have htop : renId d t = FIRST_NODE_ID := renId_top d t ht htm
+  have hhead : ((pOrder d).map (fun n => vname d n.id)).head? = some (vname d n0.id) := by rw [hP]; rfl
+  unfold fromTriples
+  simp only [fold_all o d hx, hany, Bool.false_eq_true, if_false]
+  rw [mapMExcept_map _ _
+    (fun l => ({ start := renId d l.start, stop := renId d l.stop, role := some (roleOf l),
+                 post := some (postOf l) } : Link)) (keptLinks d)
+    (by
+      intro l hl
+      obtain ⟨hl', hc⟩ := List.mem_filter.mp hl
+      simp only [Bool.and_eq_true, decide_eq_true_eq] at hc
+      have hm1 : l.start ∈ (pOrder d).map (·.id) := mem_pOrder_ids.mpr ⟨(hx.ends l hl').1, hc.1⟩
+      have hm2 : l.stop ∈ (pOrder d).map (·.id) := mem_pOrder_ids.mpr ⟨(hx.ends l hl').2, hc.2⟩
+      simp only [nid_vname o d hx _ hm1, nid_vname o d hx _ hm2])]
+  simp only [hhead, Option.bind_some, nid_vname o d hx _ hn0m, hn0]
+  rw [mkDMRS_of_wf]
+  · have hn' : (enumFrom1 0 ((pOrder d).map (fun n => pnodeOf o (vname d n.id) n))).map nodeOfP =
+        (pOrder d).map (viewNodeP o d) := hnodes
+    unfold nodeOfP at hn'
+    rw [hn']
+    unfold viewP
+    simp only [ht, Option.map_some, htop]
+    congr 2
+    apply List.map_congr_left
+    intro l hl
+    obtain ⟨r, hr, _⟩ := (hx.links l (List.mem_filter.mp hl).1).role
+    obtain ⟨p, hp, _⟩ := (hx.links l (List.mem_filter.mp hl).1).post
+    obtain ⟨a, b, ro, po⟩ := l
+    simp only at hr hp
+    simp [roleOf, postOf, hr, hp]
+  · intro l hl
+    obtain ⟨l0, _, rfl⟩ := List.mem_map.mp hl
+    have : FIRST_NODE_ID = 10000 := rfl
+    have h0 : TOP_NODE_ID = 0 := rfl
+    simp only [renId, this, h0]
+    omega
+
 end Verif.C02
+
